@@ -27,8 +27,9 @@ Sessions (`<id>` any word)
 * `sess.new <id> <seed>`; `srv.send <id> <flag> <data> <padlen>` → `ok <wire>`;
   `srv.feed <id> <bytes>` → `ok <payload> <shapes>` | `fail`;
   `cli.rx <id> <bytes>` → `ok <delivered> <events>`; `cli.write <id> <data> <wire>` → `ok <sample>` | `mismatch <n>`
-Ticket store model: `st.reset`, `st.store <addr> <raw> <now>`, `st.connect <addr> <now>`,
-  `st.reload <now>`, `st.age <addr> <delta>`, `st.file`, `st.load <filehex> <now>`
+Ticket store model (map + file, `<w>` = 1/0: the checkpoint succeeds/fails): `st.reset`,
+  `st.store <addr> <raw> <now> <w>`, `st.connect <addr> <now> <w>` → `dh` | `ticket …` | `error`,
+  `st.reload <now>`, `st.age <addr> <delta>`, `st.dump`, `st.file`, `st.load <filehex> <now>`
 -/
 namespace Driver.SSuit
 open O4 O4.SS O4.Consts.Scramblesuit
@@ -61,7 +62,8 @@ structure Sess where
 
 structure St where
   sess : List (String × Sess)
-  store : Store
+  store : Disk
+  fileText : Option String
 
 def St.get (st : St) (id : String) : Option Sess := (st.sess.find? (·.1 == id)).map (·.2)
 def St.put (st : St) (id : String) (s : Sess) : St :=
@@ -293,46 +295,58 @@ def step (st : St) : List String → St × String
       | some (smp, cs) => (st.put id { s with ctx := cs }, s!"ok {smp}")
       | none => (st, s!"mismatch {cands.length}")
     | _, _, _ => (st, "bad-op")
-  | ["st.reset"] => ({ st with store := [] }, "ok")
-  | ["st.store", addr, raw, now] =>
-    match unhex? raw, now.toInt? with
-    | some raw, some now => ({ st with store := st.store.storeTicket addr raw now }, "ok")
+  | ["st.reset"] => ({ st with store := ⟨[], none⟩, fileText := none }, "ok")
+  | ["st.store", addr, raw, now, w] =>
+    match unhex? raw, now.toInt?, fixed? w with
+    | some raw, some now, some w =>
+      let d := st.store.storeTicket addr raw now w
+      -- the file text changes exactly when a checkpoint was attempted and succeeded
+      let txt := if w ∧ raw.length = ticketKeyLength + ticketLength then d.mem.serialize else st.fileText
+      ({ st with store := d, fileText := txt }, "ok")
+    | _, _, _ => (st, "bad-op")
+  | ["st.connect", addr, now, w] =>
+    match now.toInt?, fixed? w with
+    | some now, some w =>
+      let held := (st.store.mem.lookup addr).isSome
+      match st.store.connect addr now w with
+      | (d, fl) =>
+        let txt := if w ∧ held then d.mem.serialize else st.fileText
+        let st' := { st with store := d, fileText := txt }
+        match fl with
+        | .uniformDH => (st', "dh")
+        | .error => (st', "error")
+        | .ticket t => (st', s!"ticket {hex t.key} {hex t.ticket} {t.issuedAt}")
     | _, _ => (st, "bad-op")
-  | ["st.connect", addr, now] =>
-    match now.toInt? with
-    | some now =>
-      match st.store.connect addr now with
-      | (s', .uniformDH) => ({ st with store := s' }, "dh")
-      | (s', .ticket t) => ({ st with store := s' }, s!"ticket {hex t.key} {hex t.ticket} {t.issuedAt}")
-    | none => (st, "bad-op")
   | ["st.reload", now] =>
     match now.toInt? with
-    | some now => ({ st with store := st.store.reload now }, "ok")
+    | some now => ({ st with store := st.store.restart now }, "ok")
     | none => (st, "bad-op")
   | ["st.age", addr, delta] =>
     match delta.toInt? with
-    | some d => ({ st with store := st.store.map (fun e => if e.1 == addr then (e.1, { e.2 with issuedAt := e.2.issuedAt - d }) else e) }, "ok")
+    | some d => ({ st with store := { st.store with mem := st.store.mem.map (fun e => if e.1 == addr then (e.1, { e.2 with issuedAt := e.2.issuedAt - d }) else e) } }, "ok")
     | none => (st, "bad-op")
   | ["st.dump"] =>
-    let es := st.store.mergeSort (fun a b => strLe a.1 b.1)
+    let es := st.store.mem.mergeSort (fun a b => strLe a.1 b.1)
     let hx (b : Bytes) : String := String.ofList (b.foldr (fun x acc => Bytes.hexDigit (x.toNat / 16) :: Bytes.hexDigit (x.toNat % 16) :: acc) [])
     (st, "ok " ++ (if es.isEmpty then "-" else ",".intercalate (es.map (fun e => s!"{e.1}/{hx e.2.key}/{hx e.2.ticket}/{e.2.issuedAt}"))))
   | ["st.file"] =>
-    match st.store.serialize with
+    -- the bytes of the ticket file as the model has it (`none`: no file / an address that needs escaping)
+    match st.fileText with
     | some f => (st, "ok " ++ hex (Bytes.ofString f))
-    | none => (st, "fail addr-needs-escaping")
+    | none => (st, "none")
   | ["st.load", file, now] =>
     match unhex? file, now.toInt? with
     | some f, some now =>
       match String.fromUTF8? ⟨f.toArray⟩ with
       | none => (st, "fail shape")
       | some txt =>
-        match Store.load txt now with
-        | some s => ({ st with store := s }, s!"ok {s.length}")
-        | none => (st, "fail shape")
+        -- the file as a store (nothing filtered: a time before every issue), and what a start at `now` keeps of it
+        match Store.load txt (-(10 ^ 30 : Int)), Store.load txt now with
+        | some all, some s => ({ st with store := ⟨s, some all⟩, fileText := some txt }, s!"ok {s.length}")
+        | _, _ => (st, "fail shape")
     | _, _ => (st, "bad-op")
   | _ => (st, "bad-op")
 
-def run : IO Unit := lineLoop step ⟨[], []⟩
+def run : IO Unit := lineLoop step ⟨[], ⟨[], none⟩, none⟩
 
 end Driver.SSuit
